@@ -32,10 +32,25 @@ def tag_of(body):
     return None
 
 
+UBASE = 900000
+
+
+def unsol_id(h, data):
+    """Id of an unsolicited primary sent by the driver: S1F1 with system bytes 0x50000+id, or (colliding primaries, which carry
+    the system bytes of an open request) S1F1 with the id in the body."""
+    if h.function != 1:
+        return None
+    t = tag_of(bytes(data))
+    if t is not None and t >= UBASE:
+        return t - UBASE
+    return h.system - 0x50000 if 0x50000 <= h.system < 0x60000 else None
+
+
 def run_scenario(job):
     sid, seed, policy, ncallers, nreq, wrap, reconnect = job[:7]
     instant = job[7] if len(job) > 7 else False
     stalled_reconnect = job[8] if len(job) > 8 else False
+    collide = job[9] if len(job) > 9 else False
     hsmsrun.quiet_logging()
     simrt.install()
     import secsgem.common.protocol as cp
@@ -79,8 +94,9 @@ def run_scenario(job):
         h = m.header
         if h.s_type.value != 0:
             return None
-        if h.system >= 0x50000 and h.function == 1 and h.system < 0x60000:
-            return {"id": h.system - 0x50000}
+        u = unsol_id(h, m.data)
+        if u is not None:
+            return {"id": u}
         t = tag_of(bytes(m.data))
         return {"c": rc_of_tag(t)} if t is not None else None
 
@@ -103,7 +119,8 @@ def run_scenario(job):
 
         def on_msg(d):
             h = d["message"].header
-            mid = f"u{h.system - 0x50000}" if h.system >= 0x50000 and h.function == 1 else f"t{tag_of(bytes(d['message'].data))}"
+            u = unsol_id(h, d["message"].data)
+            mid = f"u{u}" if u is not None else f"t{tag_of(bytes(d['message'].data))}"
             ev.append({"e": "DBegin", "id": mid})
             if mid.startswith("u"):
                 s.emit("DBegin", id=int(mid[1:]))
@@ -183,6 +200,18 @@ def run_scenario(job):
                 s.emit("InOther", id=unsol[0])
                 ep.link.feed(link.hsms_frame(stype=0, system=0x50000 + unsol[0], session=0, stream=1, function=1, wbit=True))
                 acted = True
+            open_now = [t for t in outstanding if t not in answered]
+            if collide and open_now and rng.random() < 0.5:
+                # a primary of the peer whose system bytes (the peer numbers its own transactions) equal those of a request
+                # that is open here: it is not the reply
+                t = rng.choice(open_now)
+                unsol[0] += 1
+                ev.append({"e": "InOther", "id": f"u{unsol[0]}", "sys": format(outstanding[t], "08x")})
+                s.emit("InOther", id=unsol[0], sys=norm(outstanding[t]))
+                ep.link.feed(link.hsms_frame(stype=0, system=outstanding[t], session=0, stream=1, function=1, wbit=True,
+                                             body=body_tag(UBASE + unsol[0])))
+                rec["collisions"] = rec.get("collisions", 0) + 1
+                acted = True
             if reconnect and stalled_reconnect and not did_reconnect and rounds >= 2 and rng.random() < 0.4:
                 did_reconnect = True
                 # the link is lost while a send is blocked on a full socket; the new connection may be there before the
@@ -237,6 +266,13 @@ def run_scenario(job):
                 # let the dispatcher drain what arrived before the link is lost (messages still queued when the
                 # session ends are in flight at link loss; the property does not promise their delivery)
                 s.advance(0.25)
+                if rng.random() < 0.6:
+                    # the link is lost in the middle of a frame: the torn frame is no message, and nothing of it belongs to
+                    # the byte stream of the next connection
+                    whole = link.hsms_frame(stype=0, system=0x5FFFF, session=0, stream=1, function=1, wbit=True, body=b"\x01\x00" * rng.choice([0, 3, 40]))
+                    ep.link.feed(whole[:rng.randrange(1, len(whole))])
+                    rec["torn_frame"] = True
+                    s.advance(0.05)
                 ep.link.peer_close()
                 okc, _ = s.run_until(lambda: ep.cs == "NC" and ep.link.closed_count >= 1, max_dt=20)
                 if not okc:
@@ -247,6 +283,9 @@ def run_scenario(job):
                     if t not in answered:
                         never.add(t)
                 select()
+                if ep.cs != "SEL":
+                    rec["reselect_failed"] = True
+                    return
                 acted = True
             if not acted:
                 # let time pass: late replies / timeouts
@@ -284,9 +323,9 @@ def trace_leg(ctx, wd, recs):
     f.write_text(json.dumps([{"id": r["id"], "ev": r["tev"]} for r in recs]))
     nreq_max = max(max((e["c"] for e in r["tev"]), default=1) for r in recs)
     m = max(max((e["sys"] for e in r["tev"]), default=1) for r in recs) + 2
-    cfg = (f"SPECIFICATION TSpec\nCONSTANTS AtomicCounter = TRUE\n SingleDispatcher = TRUE\n LateReplies = TRUE\n NC = {nreq_max}\n NU = 100000\n"
+    cfg = (f"SPECIFICATION TSpec\nCONSTANTS AtomicCounter = TRUE\n SingleDispatcher = TRUE\n LateReplies = TRUE\n SecondaryOnly = TRUE\n NC = {nreq_max}\n NU = 100000\n"
            f" M = {m}\n MaxConn = 2\nCONSTRAINT Progress\nINVARIANT DistinctOutstanding\nINVARIANT OwnReplyOnly\nINVARIANT OneAtATime\n"
-           "INVARIANT InOrderOnce\n")
+           "INVARIANT InOrderOnce\nINVARIANT NothingSwallowed\n")
     rt = tlc.run("TransactionsTrace", cfg_text=cfg, workdir=wd, workers=4, env={"TRACE_FILE": str(f)}, what="tx_trace", coverage=False,
                  deadlock=False, timeout=1800, expect_error=True)
     best = {}
@@ -348,7 +387,7 @@ def run(ctx: Ctx):
     n = 120 if ctx.quick else 1500
     for i in range(1, n + 1):
         pol = ["pct", "random", "pct", "fifo"][i % 4]
-        jobs.append((i, rng.randrange(1 << 30), pol, rng.choice([2, 2, 3, 4]), rng.choice([1, 2]), i % 5 == 0, i % 3 == 0, i % 4 in (1, 2), i % 6 == 0))
+        jobs.append((i, rng.randrange(1 << 30), pol, rng.choice([2, 2, 3, 4]), rng.choice([1, 2]), i % 5 == 0, i % 3 == 0, i % 4 in (1, 2), i % 6 == 0, i % 3 == 1))
     recs = pmap(run_scenario, jobs)
     bad = [r for r in recs if r["outcome"] != "done" or r.get("errors")]
     for r in bad[:3]:
@@ -356,7 +395,12 @@ def run(ctx: Ctx):
             raise Machinery(str(r["errors"]))
         ctx.violation({"check": "tx-run", "clause": "run-did-not-finish", "what": f"scenario ended {r['outcome']} {r.get('errors')}",
                        "record": {k: r[k] for k in r if k != "ev"}, "events": r["ev"][-30:]})
-    recs = [r for r in recs if r["outcome"] == "done" and not r.get("errors")]
+    for r in [r for r in recs if r.get("reselect_failed")][:5]:
+        ctx.violation({"check": "tx-run", "clause": "no-session-on-the-re-established-link", "cfg": r["cfg"], "sched_seed": r["seed"], "policy": r["policy"],
+                       "torn_frame": r.get("torn_frame", False), "events": r["ev"][-20:],
+                       "what": f"after the link was lost{' in the middle of an inbound frame' if r.get('torn_frame') else ''} and re-established, "
+                               "the Select.req of the new connection was not answered: nothing that arrives on it is delivered"})
+    recs = [r for r in recs if r["outcome"] == "done" and not r.get("errors") and not r.get("reselect_failed")]
     f = wd / "tx_traces.json"
     f.write_text(json.dumps([{"id": r["id"], "ev": r["ev"]} for r in recs]))
     rj = tlc.run("TxJudge", cfg_text="", workdir=wd, workers=1, env={"TRACE_FILE": str(f)}, what="judge", coverage=False,
@@ -377,6 +421,9 @@ def run(ctx: Ctx):
                            "policy": r["policy"], "reconnect": r["cfg"][3], "events": r["ev"][: max(v["at"], 1) + 2][-40:],
                            "what": f"TxMon clause '{v['clause']}' at event {v['at']} "
                                    f"({r['ev'][v['at'] - 1] if v['at'] else 'end of run'}); callers={r['cfg'][0]}"})
+    ctx.extra["colliding_primaries"] = sum(r.get("collisions", 0) for r in recs)
+    if not ctx.extra["colliding_primaries"] and not ctx.violations:
+        raise Machinery("no scenario delivered a primary carrying the system bytes of an open request")
     trace_leg(ctx, wd, recs)
     # after a reconnect there is still exactly one receive path: the receiver / dispatcher loops of 30 (300) histories with a
     # reconnect (plain, and with the link lost while a send is blocked) validated against DispatcherLoops (model checked in C04)
